@@ -292,12 +292,16 @@ func getHTTP(proto string) *httpSvc {
 	return s
 }
 
+var appHeaders = map[string]string{"x-verif-app": "c12"}
+
 func (s *httpSvc) clientFor(proto string, reqLimit, respLimit uint) *frugal.FStandardClient {
 	k := [2]uint{reqLimit, respLimit}
 	if c, ok := s.client[k]; ok {
 		return c
 	}
-	tr := frugal.NewFHTTPTransportBuilder(&http.Client{}, s.ts.URL).
+	// every transport of the process is given the application's one map of static request headers, as a program
+	// with several clients would (the limits differ per transport; the map is the caller's)
+	tr := frugal.NewFHTTPTransportBuilder(&http.Client{}, s.ts.URL).WithRequestHeaders(appHeaders).
 		WithRequestSizeLimit(reqLimit).WithResponseSizeLimit(respLimit).Build()
 	tr.Open()
 	c := frugal.NewFStandardClient(frugal.NewFServiceProvider(tr, protoFactory(proto)))
